@@ -9,7 +9,7 @@ from common import Ctx, driver_batch, fmt
 
 PROPERTY = "C06"
 LEAN_MODULES = ["Proofs.C06", "Proofs.C06.Full", "Proofs.C06.Close", "Proofs.C06.CloseRel", "Proofs.C06.CloseReal",
-                "Proofs.C06.Inverse", "Proofs.C06.InverseLog", "Proofs.C06.InversePy", "Proofs.Numerics"]
+                "Proofs.C06.Inverse", "Proofs.C06.InverseLog", "Proofs.C06.InversePy", "Proofs.C06.Strengthen", "Proofs.C06.Converse", "Proofs.Numerics"]
 DRIVERS = ["driver", "driver_tick"]
 EXTRA_THEOREM_PREFIXES = ["Num_"]   # Proofs/Numerics.lean: proved error bounds of the model's round35/dsqrt35, used by C06_inverse_x96_round35
 RULE = ("ticks: stride sample + boundaries + random (thorough: all 1 774 545); sqrt prices on, just above, in the middle of and just "
